@@ -384,6 +384,7 @@ func freshValue(t types.Type, prefix string) Value {
 // ---- strings
 
 var strLits = map[string]*Term{}
+var strLitOf = map[int]string{}
 var strLitFacts []*Term // ground facts about literals, included in every script
 var strLitOrder []string
 
@@ -403,6 +404,7 @@ func strLit(s string) *Term {
 	name := fmt.Sprintf("lit%d_%s", len(strLits), sanitize(truncStr(s, 16)))
 	t := B.Const(name, SStr)
 	strLits[s] = t
+	strLitOf[t.id] = s
 	strLitOrder = append(strLitOrder, s)
 	strLitFacts = append(strLitFacts, Eq(strLen(t), BVInt(int64(len(s)), 64)))
 	if len(s) <= 64 {
